@@ -148,6 +148,7 @@ struct Table {
         has_buckets = pending = false;
         cap = cur_n = tgt_n = B = keyed_since = 0;
         cur_f = tgt_f = F_NULL;
+        memset(&h, 0xA5, sizeof h);      // init must set every field itself
         cstl_hash_init(&h, off);
     }
 };
